@@ -95,7 +95,9 @@ def layout_edits(base: str):
     out["leading-blank-lines"] = "\n\n\n" + base
     out["spaces-around-equals"] = "\n".join((l.replace(" = ", "   =   ") if i in ai else l) for i, l in enumerate(lines)) + "\n"
     out["no-spaces-around-equals"] = "\n".join((l.replace(" = ", "=") if i in ai else l) for i, l in enumerate(lines)) + "\n"
-    out["continuation-after-operator"] = "\n".join((l.replace("*", "*\n      ", 1) if i == ai[0] else l) for i, l in enumerate(lines)) + "\n"
+    import re as _re
+    # after a single `*` (never inside the power operator `**`)
+    out["continuation-after-operator"] = "\n".join((_re.sub(r"(?<!\*)\*(?!\*)", "*\n      ", l, count=1) if i == ai[0] else l) for i, l in enumerate(lines)) + "\n"
     out["continuation-inside-parens"] = "\n".join((l.replace("(", "(\n   ", 1) if i == ai[0] else l) for i, l in enumerate(lines)) + "\n"
     out["declaration-one-per-line"] = base.replace(", ", ",\n    ")
     out["unit-changed"] = base.replace('unit="mV"', 'unit="uV"').replace('unit="ms"', 'unit="s"')
